@@ -235,6 +235,24 @@ func checkSVDInner(c svdCase, lt *late) *vk.Failure {
 		// -Inf. Reported behind the rest of the case.
 		lt.add(failf("cond-singular", "%d×%d class %s: SVD.Cond()=%v although the smallest singular value is %v (largest %v): want +Inf", m, n, c.Class, cond, s[k-1], s[0]))
 	}
+	// Rank(rcond) is documented as the count of singular values greater than rcond scaled by
+	// the largest one; evaluated from Values at rcond = 0 (only exactly zero values are dropped),
+	// at thresholds that coincide with a singular value, and at 1 (seeded change C06-13: `<=`
+	// turned into `<`, which only shows when a value equals the threshold exactly).
+	for _, rc := range []float64{0, 1e-10, 1, s[k-1] / s[0], s[k/2] / s[0]} {
+		if math.IsNaN(rc) {
+			continue // zero matrix: 0/0
+		}
+		want := 0
+		for _, v := range s {
+			if v > rc*s[0] {
+				want++
+			}
+		}
+		if r := svd.Rank(rc); r != want {
+			return failf("rank-definition", "%d×%d class %s: Rank(%g)=%d but %d singular values exceed %g*s[0] (values %v)", m, n, c.Class, rc, r, want, rc, s)
+		}
+	}
 	if c.Class == "well" || c.Class == "rankdef" {
 		if r := svd.Rank(1e-10); r != g.rank {
 			return failf("rank", "Rank(1e-10)=%d, constructed rank %d (values %v)", r, g.rank, s)
